@@ -102,6 +102,9 @@ class DnsRecordDnskey(ParsableBase, Serializable):
             # an exponent of zero would be composed in no octets at all, and a length of zero announces the long form
             raise InvalidValue(key_parser['public_exponent'], cls, 'public_exponent')
         key_parser.parse_mpint('modulus', key_parser.unparsed_length)
+        if not key_parser['modulus']:
+            # the size of a key is the size of its modulus, there is none for zero
+            raise InvalidValue(key_parser['modulus'], cls, 'modulus')
 
         return PublicKey.from_params(PublicKeyParamsRsa(
             public_exponent=key_parser['public_exponent'],
@@ -152,6 +155,9 @@ class DnsRecordDnskey(ParsableBase, Serializable):
 
         mpint_length = 64 + key_parser['t'] * 8
         key_parser.parse_mpint('p', mpint_length)
+        if not key_parser['p']:
+            # the size of a key is the size of its prime, there is none for zero
+            raise InvalidValue(key_parser['p'], cls, 'p')
         key_parser.parse_mpint('g', mpint_length)
         key_parser.parse_mpint('y', mpint_length)
 
